@@ -57,7 +57,8 @@ def configs(tier):
                     if big and shape == "deep":
                         L = 4
                     hset = {1: "two", 2: "hd", 3: "mhd"}[ndim] if not big else None
-                    for hs in ([hset] if hset else ["two", "hd", "mhd"]):
+                    # thorough: the variable set rotates with (ndim, shape, boundaries) -- every set meets every ndim and shape
+                    for hs in ([hset] if hset else [["two", "hd", "mhd"][(ndim + SHAPES.index(shape) + nb) % 3]]):
                         grav = (ndim == 2) or big
                         rt = (ndim == 3 and shape == "refined") or (big and shape == "flat")
                         us = UNITSETS[(ndim + ncpu) % 2]
